@@ -277,14 +277,14 @@ KINDS = ["delete", "duplicate", "retag", "swap", "inject", "text", "attr", "dela
 def plan(tier):
     jobs = []
     quick = tier == "quick"
-    docs = ["basic", "parenta", "holder", "nillable", "compound", "reqtext", "enums", "wrapped", "unions", "wildknown", "wild", "anytyped"] if quick else list(mutate.DOCS)
+    docs = ["basic", "parenta", "holder", "nillable", "compound", "reqtext", "enums", "wrapped", "unions", "wildknown", "wild", "anytyped", "wlderived"] if quick else list(mutate.DOCS)
     tlen = 1 if quick else 2
     for d_i, doc in enumerate(docs):
         tree = mutate.tree_for(mutate.DOCS[doc][1])
         n_nodes = len(mutate.nodes(tree))
         has_attrs = any(n.attrs for n in mutate.nodes(tree))
         for k_i, kind in enumerate(KINDS):
-            if quick and (d_i + k_i) % 3 and doc not in ("basic", "holder") and not (doc in ("wildknown", "wild") and kind in ("duplicate", "retag", "inject")) and not (doc == "anytyped" and kind in ("xsitype", "text")):
+            if quick and (d_i + k_i) % 3 and doc not in ("basic", "holder") and not (doc in ("wildknown", "wild") and kind in ("duplicate", "retag", "inject")) and not (doc == "anytyped" and kind in ("xsitype", "text")) and not (doc == "wrapped" and kind in ("inject", "duplicate", "retag", "swap")):
                 continue
             if (kind in _NEEDS_PARENT and n_nodes < 3) or (kind in ("attr", "delattr") and not has_attrs):
                 continue  # fault kind not applicable to this document (would be a vacuous harness)
@@ -292,7 +292,7 @@ def plan(tier):
             if not quick:
                 jobs.append(Job("fault", {"doc": doc, "kind": kind, "handler": ("lxml", "native")[(d_i + k_i) % 2], "strict": int((d_i + k_i) % 4 == 3), "fcw": 1 - (k_i // 2) % 2, "tlen": tlen}, 240, 30))
     jobs.append(Job("syntax_error", {"doc": "basic"}, 60, 10))
-    for d_i, doc in enumerate(["basic", "parenta", "holder", "lists", "compound", "wrapped", "nillable", "enums", "unionmodels", "wild"] if quick else list(mutate.DOCS)):
+    for d_i, doc in enumerate(["basic", "parenta", "holder", "lists", "compound", "wrapped", "nillable", "enums", "unionmodels", "wild", "wlderived"] if quick else list(mutate.DOCS)):
         jobs.append(Job("dict_fault", {"doc": doc, "strict": 1, "fcw": d_i % 2, "tlen": tlen}, 240, 30))
         if not quick or d_i % 2 == 0:
             jobs.append(Job("dict_fault", {"doc": doc, "strict": 0, "fcw": (d_i + 1) % 2, "tlen": tlen}, 240, 30))
